@@ -36,7 +36,7 @@ PROTO = "proto"
 
 
 def proto_ok(spec):
-    return not any(L.mentions(spec, n) for n in ("Map", "PrefixMap", "This", "Legacy"))
+    return not any(L.mentions(spec, n) for n in ("Map", "MapMut", "PrefixMap", "This", "Legacy"))
 OWNER = C3.OWNER
 
 
@@ -78,7 +78,7 @@ def plain(v):
 
 
 def mapped(spec):
-    return spec[0] in ("Map", "PrefixMap")
+    return spec[0] in ("Map", "MapMut", "PrefixMap")
 
 
 def protocol_exceptions(v, acc=None):
